@@ -389,6 +389,10 @@ pub proof fn lemma_default_depot_covers_all_trips(
 //@end
 //@item model/src/json_serialisation/mod.rs struct DepartureSegment : plain
 //@end
+//@item model/src/json_serialisation/mod.rs struct Route : plain
+//@end
+//@item model/src/json_serialisation/mod.rs struct Departures : plain
+//@end
 pub type Integer = u64;
 pub type DateTimeString = String;
 //@item model/src/base_types/distance.rs Distance::from_meter
@@ -409,7 +413,22 @@ pub type DateTimeString = String;
     ensures r.id == id, r.location == location, r.start == start, r.end == end, r.track_count == track_count,
 //@end
 
-//@skeleton model/src/json_serialisation/mod.rs fn create_service_trips : let arrival_time; let distance; let seated; stmt "if passengers == 0"; let maximal_formation_count; let service_trip = da413f9d32843c1a
+//@skeleton model/src/json_serialisation/mod.rs fn create_service_trips : closure find#0; closure find#1; let arrival_time; let distance; let seated; stmt "if passengers == 0"; let maximal_formation_count; let service_trip = 12927ca4bdc42ab4
+
+// the two look-ups by id (`.iter().find(<closure>).unwrap()`: A-lib, `find` returns the first element the closure accepts;
+// the `unwrap` needs that one exists: "references resolve" of the input format)
+//@frag model/src/json_serialisation/mod.rs fn create_service_trips : closure find#0 as frag_route_of_departure
+//@params departure: &Departures, route: &&Route
+//@ret (r: bool)
+//@sig
+    ensures r == (route.id@ == departure.route@), // @obl C17.loader.route_is_found_by_the_departures_route_id
+//@end
+//@frag model/src/json_serialisation/mod.rs fn create_service_trips : closure find#1 as frag_route_segment_of_departure_segment
+//@params departure_segment: &DepartureSegment, segment: &&RouteSegment
+//@ret (r: bool)
+//@sig
+    ensures r == (segment.id@ == departure_segment.route_segment@), // @obl C17.loader.route_segment_is_found_by_the_referenced_id
+//@end
 
 //@frag model/src/json_serialisation/mod.rs fn create_service_trips : let arrival_time as frag_arrival_time
 //@params departure_time: DateTime, route_segment: &&RouteSegment
